@@ -63,8 +63,9 @@ var apiExceptions = []apiExc{
 	{"util.BasicReleaser.SetReleaser", "already released", mMisuse, "doc", "ReleaseSetter: 'This will panic if a releaser already present or coresponding resource is already released.'"},
 	// ---- filter
 	{"filter.FilterGenerator.Generate", "required argument nil", mMisuse, "required", "Generate writes the filter to b"},
-	{"filter.FilterGenerator.Generate", "n<0", mRet | mPanic | mAlloc, "model", "undocumented, NOT repaired: nBits = uint32(keys * bitsPerKey) wraps; Codec/Bloom.v models the wrap (bloom_nbytes) and the integer divide by zero (bloom_generate = None); C16_bloom_generate_total assumes 0 <= bitsPerKey and keys * bitsPerKey < 2^32 - 7; C16 records negative bitsPerKey as option misuse"},
-	{"filter.FilterGenerator.Generate", "n huge", mRet | mPanic | mAlloc, "model", "undocumented, NOT repaired: as above for keys * bitsPerKey >= 2^32 - 7 (divide by zero) and for filters of up to 2^32 bits (512 MB): bitsPerKey is the size the caller asks for"},
+	// REPAIRED (fix: filter: ... commits; C16_bloom_generate_total / C16_bloom_contains_total are unconditional): no row for
+	// "n<0" any more (a negative bitsPerKey reads as 0: the call must return), no PANIC for "n huge"
+	{"filter.FilterGenerator.Generate", "n huge", mRet | mAlloc, "size", "bitsPerKey >= 2^31 with at least one key asks for a filter of keys * bitsPerKey bits; Generate limits it to maxBloomBits = 2^32-8 bits (512 MiB) and must return (no panic: the integer divide by zero and the uint32 wrap are repaired)"},
 	// ---- memdb
 	{"memdb.New", "n huge", mRet | mPanic | mAlloc, "size", "New: 'The capacity is the initial key/value buffer capacity.'"},
 	{"memdb.New", "required argument nil", mMisuse, "required", "the comparer orders the keys: the second Put compares"},
